@@ -11,12 +11,17 @@ ACTIONS = ["LoadConst", "LoadInt", "LoadLongInt", "LoadFloat", "LoadBytes", "Loa
            "SetItem", "BuildTuple", "BuildSet", "Stop"]
 
 
-def channel_cases(ctx, models):
-    """send v through a real channel (popen gateway, echo body): the item must come back equal;
+def channel_cases(ctx, models, kind="popen"):
+    """send v through a real channel (popen / socket / via gateway, echo body): the item must come back equal;
     a rejected value must raise DumpError, send nothing, and leave the channel usable."""
     import execnet
 
-    gw = execnet.makegateway("popen")
+    if kind == "popen":
+        gw = execnet.makegateway("popen")
+    else:
+        from real import matrix
+
+        gw = matrix.make_gateway(execnet.default_group, kind, "thread", tag="c01" + kind)
     cases = []
     try:
         ch = gw.remote_exec("for item in channel: channel.send(item)")
@@ -52,6 +57,28 @@ def channel_cases(ctx, models):
     return cases
 
 
+def _shrink(m):
+    """long byte / text leaves are replaced by (length, SHA-1) of their content on both sides of the comparison: TLC compares the digests"""
+    import hashlib
+
+    if m[0] in ("bytes", "str") and len(m[1]) > 4096:
+        raw = bytes(m[1]) if m[0] == "bytes" else ",".join(map(str, m[1])).encode()
+        return [m[0], list(len(m[1]).to_bytes(8, "big") + hashlib.sha1(raw).digest())]
+    if m[0] in ("list", "tuple", "set", "frozenset"):
+        return [m[0], [_shrink(x) for x in m[1]]]
+    if m[0] == "dict":
+        return ["dict", [[_shrink(k), _shrink(v)] for k, v in m[1]]]
+    return m
+
+
+def shrunk(c):
+    c = dict(c)
+    c["v"] = _shrink(c["v"])
+    if c["back"][0] == "value":
+        c["back"] = ["value", _shrink(c["back"][1])]
+    return c
+
+
 def run(ctx):
     rng = random.Random(ctx.seed)
     big = not ctx.quick
@@ -70,6 +97,11 @@ def run(ctx):
     # the channel path, on a real gateway
     chan_models = (models[:: max(1, len(models) // (150 if ctx.quick else 1500))] + gen[: (150 if ctx.quick else 1500)])
     chans = channel_cases(ctx, chan_models)
+    # the other transports, with values whose frames do not fit one read / one pipe buffer (their byte streams are chunked differently)
+    bigs = [pyval.to_model(v) for v in (bytes(range(256)) * 32768, "ä€\U0001f600x" * 700000, list(range(1500)),
+                                         {"k%d" % i: (i, b"v" * i) for i in range(200)}, (b"", b"x" * 70000, b"y" * 65535, b"z" * 65537))]
+    for kind in ("socket", "via"):
+        chans += [shrunk(c) for c in channel_cases(ctx, bigs + chan_models[:: max(1, len(chan_models) // 40)], kind)]
     chan_cases = [{"k": "chan", "v": c["v"], "sendres": c["sendres"], "back": c["back"], "marker": c["marker_ok"]} for c in chans]
     dump_cases = [c for c in cases if c["k"] == "dump"]
     allv = sc.judge(ctx, dump_cases + chan_cases)
